@@ -36,7 +36,7 @@ WellFormedStrict == OnCase(OK)
 \* the exception is as narrow as the deviation: it never excuses a text that is well-formed, nor another context
 KFNarrow == OnCase(KF_C16_attr_ctrl(ctx, s) => ~OK /\ ctx = "attr")
 
-ClsSeq == <<"plain", "lt", "amp", "quot", "apos", "rbr", "gt", "ws", "c0", "delc1", "esc", "lbr", "digit", "m",
+ClsSeq == <<"plain", "lt", "amp", "quot", "apos", "rbr", "gt", "ws", "c0", "c0ws", "delc1", "esc", "lbr", "digit", "m",
             "fffe", "astral", "nonascii">>
 Idx(c) == CHOOSE i \in DOMAIN ClsSeq : ClsSeq[i] = c
 RECURSIVE H(_,_,_)
